@@ -120,6 +120,29 @@ class PoolModel:
         self._counter_events = {}
         self._bind_counters()
 
+    def statistics(self):
+        """counters that are statistics, not registrations: atomics that nothing in the crate ever reads (no load / compare / swap, no
+        use of what a read-modify-write returns), decrements or overwrites: they cannot influence anything"""
+        if hasattr(self, "_stats"):
+            return self._stats
+        facts = self.facts
+        busy = set()
+        for k, g in facts.local_fns.items():
+            incs, decs, others = self.counter_events(g)
+            for bb, c, how in decs + others:
+                busy.add(c)
+            for bb, c, how in incs:
+                t = g.term(bb)
+                if t["t"] == "call" and not t["dest"]["p"] and g.uses().get(t["dest"]["l"]):
+                    busy.add(c)
+            for bb, t in g.calls():
+                if re.search(r"atomic::Atomic(?:::<usize>|Usize)::(load|into_inner|get_mut)$", call_name(t)) and t["args"]:
+                    c = self.counter_of(g, g.origin(t["args"][0]))
+                    if c:
+                        busy.add(c)
+        self._stats = [c for c in self.atomics if c not in busy]
+        return self._stats
+
     # -- counters -----------------------------------------------------------------------------
     def counter_of(self, f, o):
         fs = origin_fields(o) & set(self.counters)
@@ -281,6 +304,8 @@ def rule_counter_discipline(ctx, rule):
     w = P.w
     incs, decs, others = P.counter_events(w)
     for i, (bb, c, how) in enumerate(incs):
+        if c in P.statistics():
+            continue
         dd = {b for b, c2, h in decs if c2 == c}
         # a counter that lives under the queue's lock is only ever stepped with the lock held: a panic at that point poisons the mutex and
         # ends the pool, so only the normal ways out matter for it
